@@ -1139,6 +1139,10 @@ class _SubMixin:
                     out = self.unify(out, v, n, False, "dict lookup")
                 return out
             return self.unknown(n, "key not in literal dict")
+        if isinstance(base, Obj) and hasattr(self.hooks, "method_of") and base.cls is not None:
+            fn = self.hooks.method_of(base, "__getitem__")
+            if fn is not None:
+                return self.call_function(fn, [self.eval_expr(n.slice, env)], {}, n)
         parts = self.index_parts(n.slice, env)
         if isinstance(base, Tup):
             if len(parts) == 1:
